@@ -22,7 +22,7 @@ type bfnSpec struct {
 var bytesFuncs = []bfnSpec{
 	{"Message", "Preamble"}, {"Message", "BusIdentifier"}, {"Message", "Identifier"}, {"Message", "IsExtended"},
 	{"Message", "Length"}, {"Message", "Data"}, {"Message", "Checksum"}, {"Message", "IsError"}, {"Message", "ErrorCode"},
-	{"Message", "Validate"}, {"MTData2", "PacketAt"}, {"", "ScanMessages"},
+	{"Message", "Validate"}, {"MTData2", "PacketAt"}, {"", "ScanMessages"}, {"", "NewMessage"},
 }
 
 func bfnName(recv, name string) string {
@@ -310,6 +310,10 @@ func (e *benv) expr(n ast.Expr) bex {
 			}
 			return bex{e.bad(n, "unsupported conversion"), false}
 		}
+		if id, ok := v.Fun.(*ast.Ident); ok && id.Name == "make" && len(v.Args) == 2 && bkind(tv.Type) == "bytes" {
+			a := e.expr(v.Args[1])
+			return e.flatten(e.combine([]bex{a}, func(s []string) string { return "(g_make " + s[0] + ")" }))
+		}
 		if id, ok := v.Fun.(*ast.Ident); ok && id.Name == "len" && len(v.Args) == 1 {
 			a := e.expr(v.Args[0])
 			return e.combine([]bex{a}, func(s []string) string { return "(g_len " + s[0] + ")" })
@@ -466,9 +470,60 @@ func (e *benv) block(stmts []ast.Stmt, ret func([]ast.Expr) string, cont func() 
 			return e.bad(s, "unsupported variable type")
 		}
 		return bindv(vs.Names[0].Name, bex{zero, true})
+	case *ast.ExprStmt:
+		call, ok := s.X.(*ast.CallExpr)
+		if !ok || len(call.Args) != 2 {
+			return e.bad(s, "unsupported expression statement")
+		}
+		// destination: x or x[a:] for a local byte slice x
+		dst, off := call.Args[0], bex{"0", true}
+		if se, ok := dst.(*ast.SliceExpr); ok && se.High == nil && !se.Slice3 {
+			dst = se.X
+			if se.Low != nil {
+				off = e.expr(se.Low)
+			}
+		}
+		did, ok := dst.(*ast.Ident)
+		if !ok || bkind(e.x.info.TypeOf(dst)) != "bytes" {
+			return e.bad(s, "unsupported destination of a slice write")
+		}
+		cur, known := e.vars[did.Name]
+		if !known {
+			return e.bad(s, "unknown variable")
+		}
+		full := ""
+		if sel, ok := call.Fun.(*ast.SelectorExpr); ok {
+			if f, ok := e.x.info.Uses[sel.Sel].(*types.Func); ok {
+				full = f.FullName()
+			}
+		}
+		if fid, ok := call.Fun.(*ast.Ident); ok && fid.Name == "copy" {
+			full = "copy"
+		}
+		src := e.expr(call.Args[1])
+		switch full {
+		case "(encoding/binary.bigEndian).PutUint16":
+			return bindv(did.Name, e.flatten(e.combine([]bex{off, src}, func(a []string) string { return "(g_put16 " + cur + " " + a[0] + " " + a[1] + ")" })))
+		case "copy":
+			return bindv(did.Name, e.flatten(e.combine([]bex{off, src}, func(a []string) string { return "(g_copy " + cur + " " + a[0] + " " + a[1] + ")" })))
+		}
+		return e.bad(s, "unsupported call statement")
 	case *ast.AssignStmt:
 		if len(s.Lhs) != 1 || len(s.Rhs) != 1 {
 			return e.bad(s, "unsupported assignment")
+		}
+		if ix, ok := s.Lhs[0].(*ast.IndexExpr); ok && s.Tok == token.ASSIGN {
+			// x[i] = e for a local byte slice x
+			xid, ok := ix.X.(*ast.Ident)
+			if !ok || bkind(e.x.info.TypeOf(ix.X)) != "bytes" {
+				return e.bad(s, "unsupported element assignment")
+			}
+			cur, known := e.vars[xid.Name]
+			if !known {
+				return e.bad(s, "unknown variable")
+			}
+			i, v := e.expr(ix.Index), e.expr(s.Rhs[0])
+			return bindv(xid.Name, e.flatten(e.combine([]bex{i, v}, func(a []string) string { return "(g_set " + cur + " " + a[0] + " " + a[1] + ")" })))
 		}
 		id, ok := s.Lhs[0].(*ast.Ident)
 		if !ok {
